@@ -142,6 +142,7 @@ func (x *Explorer) doCallVals(st *State, f *Frame, ins ssa.Instruction, c *ssa.C
 				x.inline(st, f, target, bindings, allArgs, site, res, isDefer)
 				return
 			}
+			x.havocPointees(st, allArgs)
 			x.havocCall(st, f, key, sig, res, isDefer)
 			return
 		}
@@ -158,6 +159,66 @@ func (x *Explorer) onStack(st *State, fn *ssa.Function) bool {
 		}
 	}
 	return false
+}
+
+// havocPointees: an unknown callee may write through the pointers it is given - every object
+// directly pointed to by an argument becomes unconstrained (one level; deeper reachability is
+// not followed and is part of the listed trust in unmodelled calls).
+func (x *Explorer) havocPointees(st *State, args []Val) {
+	for _, a := range args {
+		var p VPtr
+		switch v := a.(type) {
+		case VPtr:
+			p = v
+		case VIface:
+			if dp, ok := v.Dyn.(VPtr); ok {
+				p = dp
+			} else {
+				continue
+			}
+		default:
+			continue
+		}
+		if p.Alloc != nil || p.Ref == nil {
+			continue
+		}
+		if p.Ref.IsLit() && p.Ref.Int.Sign() == 0 {
+			continue
+		}
+		t := st.eng.pointee(p)
+		if _, isIface := t.Underlying().(*types.Interface); isIface {
+			continue
+		}
+		before := copyHeap(st.heap)
+		st.store(p, st.freshVal(t, "havoc_arg"))
+		// what an uncontracted callee does to its pointer arguments is not charged to the
+		// caller's frame (the object may well be one the callee allocated itself)
+		if _, idx := st.eng.heapAddr(p); len(idx) > 0 {
+			for name, cur := range st.heap {
+				if before[name] != cur {
+					if st.dry && st.unchargedSeen != nil {
+						st.unchargedSeen[name] = true
+					}
+					st.uncharged = append(st.uncharged[:len(st.uncharged):len(st.uncharged)], unchargedRef{name, idx[0]})
+				}
+			}
+		}
+	}
+}
+
+type unchargedRef struct {
+	name string
+	ref  *Term
+}
+
+func (st *State) unchargedGuard(name string, r *Term) *Term {
+	var g []*Term
+	for _, u := range st.uncharged {
+		if u.name == name {
+			g = append(g, Neq(r, u.ref))
+		}
+	}
+	return And(g...)
 }
 
 func (x *Explorer) havocCall(st *State, f *Frame, key string, sig *types.Signature, res ssa.Value, isDefer bool) {
@@ -177,6 +238,7 @@ func (x *Explorer) havocCallObs(st *State, f *Frame, key, name, site string, sig
 	if !st.dry {
 		x.unmod[key]++
 	}
+	x.havocPointees(st, args)
 	vals := make([]Val, sig.Results().Len())
 	for i := range vals {
 		vals[i] = x.freshResult(st, sig.Results().At(i).Type(), "havoc_"+shortKey(name))
@@ -290,9 +352,9 @@ func (x *Explorer) atReturn(st *State, f *Frame, r *ssa.Return, vals []Val) {
 	env := x.specEnv(st, f, f.contract)
 	env.bindResults(f.contract, f.fn.Signature, vals)
 	for _, cl := range f.contract.Ensures {
-		env.goal = true
-		g := env.evalBool(cl.Expr)
-		x.emit(st, "post", cl.Label, site, g, cl.Where)
+		if g, ok := x.goalOf(st, env, cl, "post", site); ok {
+			x.emit(st, "post", cl.Label, site, g, cl.Where)
+		}
 	}
 	for i, v := range vals {
 		if i < len(f.contract.Results) && f.contract.Fresh[f.contract.Results[i]] {
@@ -453,9 +515,9 @@ func (x *Explorer) crashPoint(st *State, site string) {
 	}
 	env := x.specEnv(st, top, top.contract)
 	for _, cl := range top.contract.CrashInv {
-		env.goal = true
-		g := env.evalBool(cl.Expr)
-		x.emit(st, "crash", cl.Label, "after "+site, g, cl.Where)
+		if g, ok := x.goalOf(st, env, cl, "crash", "after "+site); ok {
+			x.emit(st, "crash", cl.Label, "after "+site, g, cl.Where)
+		}
 	}
 }
 
@@ -539,6 +601,9 @@ func (x *Explorer) frameObligations(st *State, f *Frame, site string, env *SpecE
 		if cur == nil || strings.HasPrefix(name, "map:") {
 			continue // Go maps are not framed (engine note)
 		}
+		if st.unframed[name] {
+			continue // written by an uncontracted callee inside a loop (engine note)
+		}
 		old := st.oldHeap[name]
 		if old == nil {
 			old = Sym("H0:"+name, cur.Sort)
@@ -548,7 +613,7 @@ func (x *Explorer) frameObligations(st *State, f *Frame, site string, env *SpecE
 		}
 		r := st.freshInt("frame_r")
 		st.skolems = append(st.skolems, r)
-		x.emit(st, "frame", name, site, frameFormula(name, cur, old, mods, r), filepath.Base(con.File))
+		x.emit(st, "frame", name, site, Implies(st.unchargedGuard(name, r), frameFormula(name, cur, old, mods, r)), filepath.Base(con.File))
 		st.skolems = st.skolems[:len(st.skolems)-1]
 	}
 }
